@@ -38,6 +38,11 @@ def NTPSubOK : NTPSub → Prop
 /-- every length-prefixed item fits its 16-bit length -/
 def ItemsOK (xs : List Bytes) : Prop := ∀ x ∈ xs, x.length < 65536
 
+/-- a prefix is absent (length 0 on the wire) or has length 1..128 and a 16-byte address -/
+def PfxOK : Option (Nat × IP) → Prop
+  | none => True
+  | some (n, ip) => 1 ≤ n ∧ n ≤ 128 ∧ IP16 ip
+
 mutual
 /-- field-level well-formedness of one option (not counting its own value length) -/
 def WFOpt : Opt6 → Prop
@@ -58,9 +63,7 @@ def WFOpt : Opt6 → Prop
   | .domainSearch l => LabelsOK l
   | .iapd i t1 t2 os => i.length = 4 ∧ DurOK t1 ∧ DurOK t2 ∧ WFOpts os
   | .iaprefix p v pfx os =>
-    DurOK p ∧ DurOK v ∧ (match pfx with
-      | none => True
-      | some (n, ip) => 1 ≤ n ∧ n ≤ 128 ∧ IP16 ip) ∧ WFOpts os
+    DurOK p ∧ DurOK v ∧ PfxOK pfx ∧ WFOpts os
   | .infoRefresh d => DurOK d
   | .remoteID en _ => en < 4294967296
   | .fqdn _ n => LabelsOK n
